@@ -15,8 +15,13 @@ VARIABLE l
 
 TraceInit == l = 1
 
+\* Normal mode: compare here.  Fallback mode (VP_MODE = "exp", used by the harness for a shard in which the comparison itself
+\* could not be evaluated - an observation of an unexpected TYPE makes TLC's equality fail): only compute and print the
+\* expectation of every event; the observation is not touched and the harness compares.
+ExpOnly == "VP_MODE" \in DOMAIN IOEnv /\ IOEnv.VP_MODE = "exp"
 Check(e) == LET x == Exp(e.op, e.a)
-            IN IF Matches(x, e.o) THEN TRUE
+            IN IF ExpOnly THEN PrintT("EXP " \o ToString(e.id) \o " " \o ToJson(x))
+               ELSE IF Matches(x, e.o) THEN TRUE
                ELSE PrintT("BAD " \o ToString(e.id) \o " " \o ToJson(x))
 
 TraceNext == /\ l <= Len(Tr)
